@@ -7,7 +7,7 @@ SENSITIVE_FIELDS = ['body', 'subject', 'thread', 'oob_url', 'stamp', 'receipt_id
                     'attach_id', 'spoiler', 'mix_invitation', 'trust_message', 'reaction', 'shared_file', 'file_sources', 'reply', 'jmi', 'call_invite']
 STR = 'every string value exactly 1 arbitrary UTF-16 unit (lengths concrete, contents symbolic), integers/date-time values full range'
 def I(name, entry, **kw):
-    d = dict(name=name, entry=entry, unwind=8, timeout_s=300, mem_gb=4, object_bits=12, cdefs={'DOM_MAXCH': 6, 'DOM_MAXATTR': 16},
+    d = dict(name=name, entry=entry, unwind=8, timeout_s=300, mem_gb=3, object_bits=12, cdefs={'DOM_MAXCH': 6, 'DOM_MAXATTR': 16},
              bound='message with only this field set; ' + STR); d.update(kw); return d
 def CASE(field, k, n, **kw):
     return I('f_%s_c%d' % (field, k), 'h_f_' + field, cdefs={'DOM_MAXCH': 6, 'DOM_MAXATTR': 16, 'VP_CASE': k}, bound='message with only this field set (enum value %d of %d); %s' % (k, n, STR), **kw)
@@ -15,13 +15,14 @@ FIELD_INSTANCES = ([I('f_' + f, 'h_f_' + f) for f in PUBLIC_FIELDS + BOTH_FIELDS
                    + [CASE('hint', k, 4) for k in range(4)]
                    + [CASE('chat_state', k, 5, tiers=('quick', 'thorough') if k in (0, 4) else ('thorough',)) for k in range(5)]
                    + [CASE('marker', k, 3, tiers=('quick', 'thorough') if k == 1 else ('thorough',)) for k in range(3)])
-BIG = dict(unwind=40, object_bits=14, cdefs={'DOM_MAXCH': 36, 'DOM_MAXATTR': 24}, mem_gb=8, timeout_s=600)
+BIG = dict(unwind=40, object_bits=14, cdefs={'DOM_MAXCH': 36, 'DOM_MAXATTR': 24}, mem_gb=6, timeout_s=600)
 COMPOSITE = [I('allset', 'h_allset', bound='message with EVERY extension set at once (12 public + 24 sensitive elements); ' + STR, **BIG),
              I('allset_all', 'h_allset_all', bound='message with every extension set, unsplit (SceAll); ' + STR, **BIG),
              I('envelope', 'h_envelope', bound='message with every extension set, real e2ee flow (outer stanza + SCE envelope content); ' + STR, **BIG),
-             ] + [I('ni_public_c%d' % c, 'h_ni_public', bound='ANY subset of the other whitelisted fields (2^10; stanza-id %s, fallback marker %s) x ANY subset of the sensitive fields (2^24, chat state/marker any enum value); %s' % ('present' if c & 1 else 'absent', 'present' if c & 2 else 'absent', STR),
-                    unwind=16, cdefs={'DOM_MAXCH': 12, 'DOM_MAXATTR': 24, 'VP_CASE': c}, mem_gb=8, timeout_s=600, tiers=('quick', 'thorough') if c in (0, 3) else ('thorough',)) for c in range(4)] + [
-             I('ni_sensitive', 'h_ni_sensitive', bound='every sensitive field set x ANY subset of the whitelisted fields (2^11); ' + STR, **BIG)]
+             I('ni_public_full', 'h_ni_public_full', bound='every whitelisted field set x ANY subset of the 24 sensitive fields (2^24; chat state / marker any enum value): public serialization unchanged; ' + STR, **BIG),
+             I('ni_public_empty', 'h_ni_public_empty', bound='no whitelisted field set x ANY subset of the 24 sensitive fields: public part stays empty; ' + STR, **BIG),
+             I('ni_sensitive_full', 'h_ni_sensitive_full', bound='every sensitive field (and a fallback marker) set x ANY subset of the whitelisted fields (2^11): sensitive serialization unchanged; ' + STR, **BIG),
+             I('ni_sensitive_empty', 'h_ni_sensitive_empty', bound='no sensitive field set x ANY subset of the whitelisted fields: sensitive part stays empty; ' + STR, **BIG)]
 KF_INSTANCES = [I('kf_jmi', 'h_kf_jmi', known_finding=KF), I('kf_call_invite', 'h_kf_call_invite', known_finding=KF)]
 SPEC = dict(
     property='C17',
